@@ -1,6 +1,7 @@
 from __future__ import annotations
 
 import abc
+import re
 import typing
 from enum import Enum
 
@@ -133,6 +134,8 @@ class CodeGenerator(abc.ABC):
             "len",
         }
     )
+    # Regular expression for further names the backend uses for itself
+    reserved_pattern: typing.Optional[str] = None
 
     def __init__(
         self,
@@ -166,6 +169,8 @@ class CodeGenerator(abc.ABC):
         }
         helpers = {f"{d.name}_linearized" for d in self.ode.state_derivatives}
         clashes = names & (self.reserved_names | helpers)
+        if self.reserved_pattern is not None:
+            clashes |= {name for name in names if re.match(self.reserved_pattern, name)}
         if clashes:
             raise GotranxError(
                 f"The names {sorted(clashes)} are used by the generated code itself. "
